@@ -14,7 +14,7 @@
 From Eino Require Import Base.Util Model.StateLock Model.StateLockLTS Model.StateLockDrive Model.StateLockType.
 From Eino Require Import Proofs.StateLockLTS Proofs.StateLockVal Proofs.StateLockOrder Proofs.StateLockFlow
   Proofs.StateLockOwn Proofs.StateLockAcq Proofs.StateLockNest Proofs.StateLockLive Proofs.StateLockDrive Proofs.StateLock
-  Proofs.StateLockType.
+  Proofs.StateLockType Proofs.StateLockRun.
 From Coq Require Import Permutation Sorted.
 Open Scope N_scope.
 
@@ -173,6 +173,19 @@ Theorem fresh_state_per_run_and_nesting :
   c_gens c = flat_map (ogen S) (c_objs c).
 Proof. exact fresh_state_preach. Qed.
 
+(* a handler never works on another run's state, at any time in the past: all critical sections
+   ever logged on one state object were performed by graph instances of one and the same run
+   (fresh_state_per_run_and_nesting is about who sees an object now; this is about the whole log,
+   across resumes) *)
+Theorem one_run_per_object :
+  forall (S X : Type) (gen : nat -> S) (hfun : kind -> N -> X -> S -> X * S) (lout : N -> X -> X)
+         (mrg : list X -> X) (f : forest) (x0 : X) (c : config S X),
+  preach S X gen hfun lout mrg f x0 c ->
+  forall e1 e2, In e1 (c_trace c) -> In e2 (c_trace c) -> t_obj e1 = t_obj e2 ->
+    exists J1 J2, nth_error (c_insts c) (t_inst e1) = Some J1 /\ nth_error (c_insts c) (t_inst e2) = Some J2 /\
+                  i_run J1 = i_run J2.
+Proof. exact one_run_per_object_preach. Qed.
+
 (* which state a handler / a ProcessState call finds (compose/state.go getState), and of which
    type (compose/graph.go AddNode's checks): in a forest that is a tree of nested graphs
    ([nest_ok], evaluated on every case) every graph instance sees no object if no enclosing
@@ -267,6 +280,7 @@ Print Assumptions handler_values_flow.
 Print Assumptions fresh_state_per_run_and_nesting.
 Print Assumptions state_survives_resume.
 Print Assumptions state_lookup_well_typed.
+Print Assumptions one_run_per_object.
 Print Assumptions cs_counts_once.
 Print Assumptions final_counters.
 Print Assumptions no_lost_update_without_lock_refuted.
@@ -380,6 +394,16 @@ Example ex_typed :
   must_fail_t ex_forest [0; 0] [(5, (0, (0, 1)))] = true /\
   build_err_t ex_forest [0; 0] [(1, (1, (0, 0)))] = true.
 Proof. vm_compute. repeat split; reflexivity. Qed.
+
+(* one_run_per_object: two runs of the example forest, interleaved: the sections of run 0 are
+   logged on object 0, those of run 1 on object 1 *)
+Example ex_two_runs :
+  match drive ex_forest ex_x0 2 [IEv (mkEv 0 1 KPre 0 [] [] 0%Z); IEv (mkEv 1 1 KPre 1 [] [] 0%Z);
+                                 IEv (mkEv 1 2 (KBody 0) 1 [] [] 0%Z); IEv (mkEv 0 2 (KBody 0) 0 [] [] 0%Z)] with
+  | DOk c => map (fun e => (t_obj e, run_of c (t_inst e))) (c_trace c) = [(0%nat, 0); (1%nat, 1); (1%nat, 1); (0%nat, 0)]
+  | DBad _ => False
+  end.
+Proof. vm_compute. reflexivity. Qed.
 
 (* ... three levels: graph 0 declares state, its nested graph 1 declares its own, graph 2 nested
    in graph 1 declares none: the instances of graphs 1 and 2 both see the object made by the
